@@ -260,6 +260,9 @@ func (c *verifC22CountingReader) tick() {
 func (c *verifC22CountingReader) Uvarint() uint32   { c.tick(); return c.r.Uvarint() }
 func (c *verifC22CountingReader) Span(l int) []byte { c.tick(); return c.r.Span(l) }
 
+// Ok exposes the wrapped reader's state, as the *kbin.Reader that readResponse passes does.
+func (c *verifC22CountingReader) Ok() bool { return c.r.Ok() }
+
 // The response-header tag section of n <= 6 hostile bytes is skipped with a number of reader
 // operations bounded by the input: every well-formed tag costs at least 2 bytes and 3 operations,
 // so 1 + 3*(n+1) operations always suffice for an implementation that stops at the first failed
